@@ -229,6 +229,35 @@ def r17_2(ctx):
         tr = trace(cb, op)
         return bool(tr.origin and tr.origin[0] == "call" and tr.origin[2] is cvt and any(s[0] == "downcast" and s[1] == "Ok" for s in tr.steps))
 
+    def exact_slice_root(l):
+        """Local l is (a reborrow of) `&x[..buffer_size]`: a slice of exactly buffer_size bytes (the indexing would
+        have panicked otherwise)."""
+        import r_c04
+
+        root = r_c04._slice_root(cb, {"k": "copy", "p": {"l": l, "pr": []}})
+        if root is None:
+            return False
+        ds = cb.whole_defs(root)
+        if len(ds) != 1 or ds[0][2] != "call":
+            return False
+        it = ds[0][3]
+        if_ = fn_of(it) or {}
+        if if_.get("trait") not in ("std::ops::Index", "std::ops::IndexMut") or len(it["args"]) != 2:
+            return False
+        rt_ = trace(cb, it["args"][1])
+        return bool(rt_.origin and rt_.origin[0] == "agg" and rt_.origin[1]["rv"].get("adt", "").endswith("RangeTo") and rt_.origin[1]["rv"]["ops"] and is_bufsize0(rt_.origin[1]["rv"]["ops"][0]))
+
+    is_bufsize0 = is_bufsize
+
+    def is_bufsize(op):  # noqa: F811
+        if is_bufsize0(op):
+            return True
+        # `bounce.len()` with `bounce = &mut bouncer[..buffer_size]`
+        import r_c04
+
+        sl = r_c04._len_of(cb, op)
+        return sl is not None and exact_slice_root(sl)
+
     def is_readlen(op):
         tr = trace(cb, op)
         return bool(tr.origin and tr.origin[0] == "call" and tr.origin[2] is rt and any(s[0] == "downcast" and s[1] == "Ok" for s in tr.steps))
@@ -287,7 +316,19 @@ def r17_2(ctx):
             s_tr = trace(cb, src, passthrough_extra=("std::vec::Vec::<T, A>::as_ptr", "as_ptr"))
             sfld = [s[1] for s in s_tr.steps if s[0] == "field"]
             ok_src = bool(sfld) and any(r[1] == sfld[0] and cb.dominates(r[0], bb) and cb.dominates(r[0], rbb) for r in resizes)
-            ctx.ob("copy:source-is-resized-bounce-buffer", ok_src, site(cb, bb), f"source = self.{sfld[:1]} resized to buffer_size before the read" if ok_src else "the copy source is not the bounce vector resized to buffer_size")
+            det_src = f"source = self.{sfld[:1]} resized to buffer_size before the read"
+            if not ok_src:
+                # or the very slice of exactly buffer_size bytes that was lent to the reader
+                pt = trace(cb, src)
+                if pt.origin and pt.origin[0] == "call" and (fn_of(pt.origin[2]) or {}).get("name") == "as_ptr" and pt.origin[2]["args"] and is_place(pt.origin[2]["args"][0]):
+                    import r_c04
+
+                    sroot = r_c04._slice_root(cb, pt.origin[2]["args"][0])
+                    rroot = r_c04._slice_root(cb, rt["args"][1])
+                    if sroot is not None and exact_slice_root(sroot) and sroot == rroot:
+                        ok_src = True
+                        det_src = "source = the slice of exactly buffer_size bytes that was lent to the reader"
+            ctx.ob("copy:source-is-resized-bounce-buffer", ok_src, site(cb, bb), det_src if ok_src else "the copy source is not the bounce vector resized to buffer_size")
             d_tr = trace(cb, dst)
             ok_dst = d_tr.origin == ("arg", 2) and 2 in nulls and cb.edge_dominates(nulls[2][0], nulls[2][1], nulls[2][2], bb)
             ctx.ob("copy:destination-null-checked", ok_dst, site(cb, bb), "destination is libyaml's buffer argument, tested non-null")
